@@ -82,6 +82,9 @@ def _rs_src():
     if repo() == "/repo":
         return src
     dst = os.path.join(build_root(), "rs-src")
+    if os.environ.get("DV_RS_SRC_READY") == dst and os.path.exists(dst):
+        return dst  # copied by the parent process of this run
+    os.environ["DV_RS_SRC_READY"] = dst
     if os.path.exists(dst):
         shutil.rmtree(dst)
     shutil.copytree(src, dst, ignore=shutil.ignore_patterns("target", "corpus-work", "artifacts"))
